@@ -204,12 +204,15 @@ func (h *harness) run(cfg config, alpha []tm.Event, seq []int) (hs *hist) {
 	return hs
 }
 
+// cutsOf is set while a cut-point family is explored (nil: the full alphabet of a short stream)
+var cutsOf []int
+
 func describe(cfg config, alpha []tm.Event, seq []int, n int) map[string]any {
 	var ev []string
 	for _, i := range seq {
 		ev = append(ev, alpha[i].String())
 	}
-	return map[string]any{"n": n, "isn": cfg.isn, "max_pages_per_conn": cfg.perConn, "max_pages_total": cfg.total, "keep": cfg.keep, "keep_name": keepNames[cfg.keep], "events": ev, "seq": append([]int(nil), seq...)}
+	return map[string]any{"n": n, "cuts": cutsOf, "isn": cfg.isn, "max_pages_per_conn": cfg.perConn, "max_pages_total": cfg.total, "keep": cfg.keep, "keep_name": keepNames[cfg.keep], "events": ev, "seq": append([]int(nil), seq...)}
 }
 
 func main() {
@@ -235,9 +238,14 @@ func main() {
 				MaxPagesTotal   int    `json:"max_pages_total"`
 				Keep            int    `json:"keep"`
 				Seq             []int  `json:"seq"`
+				Cuts            []int  `json:"cuts"`
 			} `json:"replay"`
 		}
 		report.ReadJSON(rp, &f)
+		if len(f.Replay.Cuts) > 0 {
+			alpha = tm.AlphabetCuts(f.Replay.Cuts, true, false)
+			cutsOf = f.Replay.Cuts
+		}
 		h := &harness{n: f.Replay.N}
 		h.reset()
 		cfg := config{f.Replay.Isn, f.Replay.MaxPagesPerConn, f.Replay.MaxPagesTotal, f.Replay.Keep}
@@ -257,23 +265,8 @@ func main() {
 	}
 	var curCfg config
 	var hangLocals []*report.Local
-	statex.OnHang = func(seq []int) {
-		r.Violation("hang|a history does not terminate", fmt.Sprintf("no progress for %v on one history; %s", statex.HangAfter, curCfg), 0, describe(curCfg, alpha, seq, n))
-		for _, l := range hangLocals {
-			r.MergeLocal(l)
-		}
-		r.Exhaustive = false
-		r.Coverage["states"], r.Coverage["transitions"], r.Coverage["traces_validated_against_impl"] = 1, 1, 0
-		r.Coverage["samples"] = []any{describe(curCfg, alpha, seq, n)}
-		r.Finish()
-	}
 	workers := runtime.NumCPU()
-	hs := make([]*harness, workers)
-	for i := range hs {
-		hs[i] = &harness{n: n}
-		hs[i].reset()
-	}
-	var total int64
+	var total, transitions, rs int64
 	var mu sync.Mutex
 	outcomes := map[string]struct{}{}
 	var samples []any
@@ -284,48 +277,107 @@ func main() {
 	hangLocals = locals
 	deliveries := make([]int64, workers)
 	strict := make([]int64, workers)
-	for _, isn := range isns {
-		for _, lim := range limits {
-			for _, keep := range keeps {
-				cfg := config{isn, lim[0], lim[1], keep}
-				curCfg = cfg
-				local := make([]map[string]struct{}, workers)
-				for i := range local {
-					local[i] = map[string]struct{}{}
-				}
-				cnt, complete := statex.Sequences(len(alpha), depth, workers, r.Expired, func(w int, seq []int) {
-					h := hs[w].run(cfg, alpha, seq)
-					if len(h.insts) > 0 {
-						in := h.insts[0]
-						deliveries[w] += int64(in.Deliveries)
-						if in.Strict {
-							strict[w]++
-						}
-						local[w][fmt.Sprintf("%d/%d/%v/%v/%d", in.Pos, in.Deliveries, in.Strict, in.Ended, len(h.insts))] = struct{}{}
-					}
-					if h.viol != "" {
-						key := fmt.Sprintf("c09|%s|isn=%s|limit=%v|keep=%v", h.viol, tm.ISNClass(cfg.isn, n), lim[0]+lim[1] > 0, keep != 0)
-						locals[w].Add(key, int64(len(seq))*100+int64(keep), func() (string, any) {
-							d := describe(cfg, alpha, seq, n)
-							return h.what + "; " + cfg.String() + fmt.Sprintf("; events %v", d["events"]), d
-						})
-					}
-				})
-				total += cnt
-				if !complete {
-					r.Exhaustive = false
-				}
-				mu.Lock()
-				for _, l := range local {
-					for k := range l {
-						outcomes[k] = struct{}{}
-					}
-				}
-				mu.Unlock()
-			}
-		}
-		samples = append(samples, describe(config{isn, 2, 0, 1}, alpha, []int{0, 5, 2, 16, 9, 1}[:depth], n))
+	type family struct {
+		name   string
+		cuts   []int // nil: every segment of an n-byte stream
+		n      int
+		isns   []uint32
+		limits [][2]int
+		keeps  []int
+		depth  int
 	}
+	// multi-page family: segments spanning 2 [3] assembler pages (1900 bytes each), with room
+	// for a gap in front, a queued segment behind and a segment in between
+	mpCuts := []int{0, 100, 2100, 2200, 2300}
+	mpIsns := []uint32{1000, uint32(uint64(1)<<32 - 1200)}
+	mpLimits := [][2]int{{0, 0}, {3, 0}}
+	mpKeeps := []int{0, 3}
+	if r.Thorough() {
+		mpCuts = []int{0, 100, 1100, 2100, 4100, 4200, 4300}
+		mpIsns = append(mpIsns, 1<<31-1200)
+		mpLimits = append(mpLimits, [2]int{2, 0}, [2]int{0, 4})
+		mpKeeps = []int{0, 1, 2, 3}
+	}
+	families := []family{
+		{"short", nil, n, isns, limits, keeps, depth},
+		{"multipage", mpCuts, mpCuts[len(mpCuts)-1], mpIsns, mpLimits, mpKeeps, 5},
+	}
+	var famNotes []string
+	for _, fam := range families {
+		fam := fam
+		n := fam.n
+		alpha := alpha
+		cutsOf = fam.cuts
+		if fam.cuts != nil {
+			alpha = tm.AlphabetCuts(fam.cuts, true, false)
+		}
+		famNotes = append(famNotes, fmt.Sprintf("%s: stream of %d bytes, cut points %v, %d letters %v, histories of %d events, ISNs %v, page limits %v, keep behaviours %v", fam.name, n, fam.cuts, len(alpha), alpha, fam.depth, fam.isns, fam.limits, fam.keeps))
+		hs := make([]*harness, workers)
+		for i := range hs {
+			hs[i] = &harness{n: n}
+			hs[i].reset()
+		}
+		statex.OnHang = func(seq []int) {
+			r.Violation("hang|a history does not terminate", fmt.Sprintf("no progress for %v on one history; %s", statex.HangAfter, curCfg), 0, describe(curCfg, alpha, seq, n))
+			for _, l := range hangLocals {
+				r.MergeLocal(l)
+			}
+			r.Exhaustive = false
+			r.Coverage["states"], r.Coverage["transitions"], r.Coverage["traces_validated_against_impl"] = 1, 1, 0
+			r.Coverage["samples"] = []any{describe(curCfg, alpha, seq, n)}
+			r.Finish()
+		}
+		for _, isn := range fam.isns {
+			for _, lim := range fam.limits {
+				for _, keep := range fam.keeps {
+					cfg := config{isn, lim[0], lim[1], keep}
+					curCfg = cfg
+					local := make([]map[string]struct{}, workers)
+					for i := range local {
+						local[i] = map[string]struct{}{}
+					}
+					cnt, complete := statex.Sequences(len(alpha), fam.depth, workers, r.Expired, func(w int, seq []int) {
+						h := hs[w].run(cfg, alpha, seq)
+						if len(h.insts) > 0 {
+							in := h.insts[0]
+							deliveries[w] += int64(in.Deliveries)
+							if in.Strict {
+								strict[w]++
+							}
+							local[w][fmt.Sprintf("%s/%d/%d/%v/%v/%d", fam.name, in.Pos, in.Deliveries, in.Strict, in.Ended, len(h.insts))] = struct{}{}
+						}
+						if h.viol != "" {
+							key := fmt.Sprintf("c09|%s|isn=%s|limit=%v|keep=%v", h.viol, tm.ISNClass(cfg.isn, n), lim[0]+lim[1] > 0, keep != 0)
+							if fam.cuts != nil {
+								key += "|" + fam.name
+							}
+							locals[w].Add(key, int64(len(seq))*100+int64(keep), func() (string, any) {
+								d := describe(cfg, alpha, seq, n)
+								return h.what + "; " + cfg.String() + fmt.Sprintf("; events %v", d["events"]), d
+							})
+						}
+					})
+					total += cnt
+					transitions += cnt * int64(fam.depth+1)
+					if !complete {
+						r.Exhaustive = false
+					}
+					mu.Lock()
+					for _, l := range local {
+						for k := range l {
+							outcomes[k] = struct{}{}
+						}
+					}
+					mu.Unlock()
+				}
+			}
+			samples = append(samples, describe(config{isn, 2, 0, 1}, alpha, []int{0, 5, 2, 9, 7, 1}[:fam.depth], n))
+		}
+		for _, h := range hs {
+			rs += h.resets
+		}
+	}
+	cutsOf = nil
 	for _, l := range locals {
 		r.MergeLocal(l)
 	}
@@ -334,21 +386,14 @@ func main() {
 		dsum += deliveries[i]
 		ssum += strict[i]
 	}
-	var rs int64
-	for _, h := range hs {
-		rs += h.resets
-	}
 	r.Coverage["instance_resets"] = rs
 	r.Coverage["states"] = total
-	r.Coverage["transitions"] = total * int64(depth+1)
+	r.Coverage["transitions"] = transitions
 	r.Coverage["traces_validated_against_impl"] = total
 	r.Coverage["histories"] = total
 	r.Coverage["history_length"] = depth
 	r.Coverage["stream_bytes"] = n
-	r.Coverage["alphabet"] = fmt.Sprint(alpha)
-	r.Coverage["isns"] = fmt.Sprint(isns)
-	r.Coverage["limit_configs"] = fmt.Sprint(limits)
-	r.Coverage["keep_behaviours"] = fmt.Sprint(keeps)
+	r.Coverage["families"] = famNotes
 	r.Coverage["deliveries_checked"] = dsum
 	r.Coverage["histories_with_strict_first_instance"] = ssum
 	r.Coverage["distinct_outcomes"] = len(outcomes)
